@@ -21,6 +21,9 @@ GettersCase(p) ==
              \o <<[op |-> "field", kind |-> "meminfo", f |-> "memory_lower"],
                   [op |-> "field", kind |-> "load_base_addr", f |-> "load_base_addr"],
                   [op |-> "field", kind |-> "module", f |-> "start_address"],
-                  [op |-> "str", kind |-> "cmdline"], [op |-> "get", kind |-> "apm"]>>,
+                  [op |-> "str", kind |-> "cmdline"], [op |-> "get", kind |-> "apm"]>>
+             \* module_tags() is a getter too: all module tags, in walk order, whatever lies between them
+             \o <<[op |-> "module_tags", it |-> 0]>> \o [i \in 1..(Len(p.ks) + 2) |-> [op |-> "next", it |-> 0]]
+             \o <<[op |-> "module_tags", it |-> 1], [op |-> "count", it |-> 1]>>,
    desc |-> [area |-> "getters"] @@ p]
 =============================================================================
